@@ -24,8 +24,8 @@ class HalfAndHalfInitializer(PopulationInitializer):
         **kwargs,
     ) -> Iterator[Individual]:
         mid = target_size // 2
-        yield from self.initializer1(problem, representation, random, mid)
-        yield from self.initializer2(
+        yield from self.initializer1.initialize(problem, representation, random, mid)
+        yield from self.initializer2.initialize(
             problem,
             representation,
             random,
